@@ -1,4 +1,5 @@
 import ElkVerif.Proofs.PromiseLive
+import ElkVerif.Gen.AwaitSteps
 /-!
 # C16 — Awaiting never loses a wake-up or deadlocks the runtime
 
@@ -279,6 +280,41 @@ the physical fields — whatever their `loc`, `tasks`, `pubs`, `bodyRes` are. So
 physical state is well defined and the ghost fields are pure bookkeeping for the proofs. -/
 theorem ghost_fields_irrelevant {N Q : Nat} {s t : Sys} (h : SamePhys s t) (e : Event) :
     StepAgree (stepB N Q s e) (stepB N Q t e) := ghost_irrelevant h e
+
+/-! ### probe of the micro-step order (tie P)
+
+`Gen/AwaitSteps.lean` is regenerated on every run from one canonical execution of the real runtime
+(pool 1, queue 256, no yields): task 0 starts task 1 and awaits it while it is unsettled (suspend path),
+task 1 awaits a `timeout` promise settled by a timer goroutine, task 0 is resumed and awaits task 1
+again (ready path). `probeTrace` is that execution in the model's vocabulary. -/
+
+def kindOf : Event → String
+  | .add .. => "add" | .enq .. => "enq" | .deq .. => "deq" | .aw .. => "aw" | .awl .. => "awl"
+  | .aws .. => "aws" | .awr .. => "awr" | .reg .. => "reg" | .unl .. => "unl" | .res .. => "res"
+  | .resl .. => "resl" | .pub .. => "pub" | .enqc .. => "enqc" | .resu .. => "resu" | .newx .. => "newx"
+  | .syw .. => "syw" | .sywd .. => "sywd"
+
+def probeTrace : List Event :=
+  [.add 1 0, .enq 1 0, .syw 1 0,
+   .deq 0 0, .add 0 1, .enq 0 1, .aw 0 1, .awl 0 1, .aws 0 1, .reg 0 1, .unl 0 1,
+   .deq 0 1, .newx 0 2, .aw 0 2, .awl 0 2, .aws 0 2, .reg 0 2, .unl 0 2,
+   .res 2 2 (.ok 0), .resl 2 2, .pub 2 2, .enqc 2 2 1, .resu 2 2,
+   .deq 0 1, .res 0 1 (.ok 0), .resl 0 1, .pub 0 1, .enqc 0 1 0, .resu 0 1,
+   .deq 0 0, .aw 0 1, .awl 0 1, .awr 0 1, .res 0 0 (.ok 0), .resl 0 0, .pub 0 0, .resu 0 0,
+   .sywd 1 0]
+
+def kindsOf (a : Nat) (tr : List Event) : List String := (tr.filter fun e => e.actor == a).map kindOf
+
+/-- the canonical execution is a run of the model … -/
+theorem probeTrace_runs : (runTrace 1 256 init probeTrace).isSome = true := by decide
+
+/-- … and, goroutine by goroutine, its micro-steps are the ones the real runtime was observed to take,
+in the same order (worker, main thread, timer goroutine). Re-proved by `decide` against the
+regenerated `Gen/AwaitSteps.lean` on every run: reordering the protocol steps in the Go code (e.g.
+unlocking before registering the continuation) breaks this obligation. -/
+theorem awaitSteps_ok :
+    Gen.awaitWorker = kindsOf 0 probeTrace ∧ Gen.awaitMain = kindsOf 1 probeTrace ∧
+    Gen.awaitSettler = kindsOf 2 probeTrace := by decide
 
 /-! ### non-vacuity -/
 
